@@ -24,7 +24,7 @@ Require Import Cirbo.Model.Base Cirbo.Model.Gate Cirbo.Model.Circuit Cirbo.Model
         Cirbo.Model.Passes Cirbo.Model.WF.
 Require Import Cirbo.Proofs.TraverseInv Cirbo.Proofs.PassRebuild Cirbo.Proofs.PassRR Cirbo.Proofs.PassMU
         Cirbo.Proofs.PassMD Cirbo.Proofs.PassPipeline Cirbo.Proofs.PassTotal Cirbo.Proofs.PassAll
-        Cirbo.Proofs.PassWitness.
+        Cirbo.Proofs.PassWitness Cirbo.Proofs.PassEntry.
 
 (* ---- RemoveRedundantGates() ---- *)
 Theorem C03_remove_redundant_gates : forall c c',
@@ -111,17 +111,42 @@ Theorem C03_rebuild_with_remap : forall c a R n,
   forall l, has_gate n l = true -> forall v, Eval n a l v <-> Eval c a l v.
 Proof. exact rebuild_sem. Qed.
 
-(* ---- "an identical truth table", on the executable get_truth_table: for every pipeline that
-   keeps the inputs (in particular each of RR(), MU, MD, ME alone, as [t]) and for cleanup ---- *)
-Theorem C03_pipeline_truth_table : forall c ts c' t t',
+(* ---- "an identical truth table", on the executable entry points, as equalities of results: for
+   every pipeline that keeps the inputs (in particular each of RR(), MU, MD, ME alone, as [t]) and
+   for cleanup, get_truth_table of the result EQUALS get_truth_table of the argument, and both
+   calls return (completeness of the evaluators, C01); likewise evaluate on every Boolean vector
+   (any length), and on every three-valued vector when no MergeEquivalentGates is involved ---- *)
+Theorem C03_pipeline_truth_table : forall c ts c',
   WF c -> arity_ok c -> forallb (all_leaves keep_of) ts = true -> apply_transformers c ts = Ok c' ->
-  get_truth_table c = Ok t -> get_truth_table c' = Ok t' -> t = t'.
-Proof. exact pipeline_truth_table. Qed.
+  get_truth_table c' = get_truth_table c.
+Proof. exact pipeline_truth_table_eq. Qed.
 
-Theorem C03_cleanup_truth_table : forall c b c' t t',
+Theorem C03_pipeline_truth_table_returns : forall c ts c',
+  WF c -> arity_ok c -> forallb (all_leaves keep_of) ts = true -> apply_transformers c ts = Ok c' ->
+  exists tt, get_truth_table c = Ok tt /\ get_truth_table c' = Ok tt.
+Proof. exact pipeline_truth_table_ok. Qed.
+
+Theorem C03_pipeline_evaluate : forall c ts c',
+  WF c -> arity_ok c -> forallb (all_leaves keep_of) ts = true -> apply_transformers c ts = Ok c' ->
+  (forall vals, forallb (all_leaves tv_of) ts = true \/ (exists bs, vals = map inj bs) ->
+                evaluate c' vals = evaluate c vals) /\
+  get_truth_table c' = get_truth_table c.
+Proof. exact pipeline_entry_eq. Qed.
+
+Theorem C03_cleanup_truth_table : forall c b c',
+  WF c -> arity_ok c -> cleanup c b = Ok c' -> get_truth_table c' = get_truth_table c.
+Proof. exact cleanup_truth_table_eq. Qed.
+
+Theorem C03_cleanup_truth_table_returns : forall c b c',
   WF c -> arity_ok c -> cleanup c b = Ok c' ->
-  get_truth_table c = Ok t -> get_truth_table c' = Ok t' -> t = t'.
-Proof. exact cleanup_truth_table. Qed.
+  exists tt, get_truth_table c = Ok tt /\ get_truth_table c' = Ok tt.
+Proof. exact cleanup_truth_table_ok. Qed.
+
+Theorem C03_cleanup_evaluate : forall c b c',
+  WF c -> arity_ok c -> cleanup c b = Ok c' ->
+  (forall vals, b = false \/ (exists bs, vals = map inj bs) -> evaluate c' vals = evaluate c vals) /\
+  get_truth_table c' = get_truth_table c.
+Proof. exact cleanup_entry_eq. Qed.
 
 (* ---- totality: the passes and every pipeline return a circuit (no CircuitValidationError from
    emplace_gate, no IndexError from the positional operand getters, no fuel exhaustion) ---- *)
